@@ -42,6 +42,11 @@ func ruleC07(r *Report) {
 	safely(r, func() { checkNoAlgorithmFilter(r, p, "C07.sig-methods") })
 	// "every registered SP metadata with an encryption certificate": the IdP encrypts to the certificate registered now
 	// (C08.current-key, borrowed) — a remembered certificate is one the SP may no longer hold the key for
+	// "every supported signature method and key type": the IdP signs with whatever the operator configured - an opaque
+	// crypto.Signer (ECDSA, HSM) through its own branch, else the RSA key (C06.ctx, borrowed); a Signer forced through
+	// the RSA key store cannot sign at all
+	r.Rule("C07.idp-key", "the IdP's signing context is built from the configured Signer when there is one, else from the Key, with the configured signature method (C06.ctx, borrowed): every supported key type and method yields a response", 2)
+	r.borrow("C06.ctx", "C07.idp-key", func() { checkC06Ctx(r, p) })
 	r.Rule("C07.encryption-key", "the IdP's encryption certificate is a function of the SP metadata registered now (C08.current-key, borrowed): after a key roll-over the SP can decrypt what the IdP sends", 1)
 	r.borrow("C08.current-key", "C07.encryption-key", func() {
 		sel, _ := encCertSelector(p)
@@ -647,6 +652,10 @@ func responsePathTypes(p *Prog) map[*types.Named]bool {
 // unconditionalInLoop: the AddChild call is executed on every iteration of the innermost range loop whose
 // induction index selects the element, and that loop is left only through its header.
 func unconditionalInLoop(c *ssa.Call, o *origin) (bool, string) {
+	return unconditionalInLoopAt(c.Block(), o)
+}
+
+func unconditionalInLoopAt(cb *ssa.BasicBlock, o *origin) (bool, string) {
 	if !o.elem || o.idx == nil {
 		return false, "the child is not the element selected by a loop index"
 	}
@@ -718,7 +727,6 @@ func unconditionalInLoop(c *ssa.Call, o *origin) (bool, string) {
 	if len(latches) == 0 {
 		return false, "not a loop"
 	}
-	cb := c.Block()
 	for _, l := range latches {
 		if !(cb == l || cb.Dominates(l)) {
 			return false, "an iteration can reach the next one without adding its element (conditional emission)"
@@ -1016,6 +1024,19 @@ func checkSessionCopy(r *Report, p *Prog) {
 				if bi, ok := c.Call.Value.(*ssa.Builtin); ok && bi.Name() == "append" {
 					if okL, _ := unconditionalInLoop(c, &origin{elem: true, idx: ia.Index}); okL {
 						okGroups = true
+					}
+				}
+			}
+			// a slice made with one slot per group, filled by the same index (values := make([]T, len(groups));
+			// values[i] = T{group})
+			if st, ok := in.(*ssa.Store); ok {
+				if dst, ok := st.Addr.(*ssa.IndexAddr); ok && dst.Index == ia.Index {
+					if mk, ok := dst.X.(*ssa.MakeSlice); ok {
+						if la := lenArg(mk.Len); la != nil && rg.Ctx(a, rg.top).AP(la) == rg.Ctx(a, rg.top).AP(ia.X) {
+							if okL, _ := unconditionalInLoopAt(st.Block(), &origin{elem: true, idx: ia.Index}); okL {
+								okGroups = true
+							}
+						}
 					}
 				}
 			}
